@@ -127,12 +127,14 @@ func runC03(r *Run) {
 		}
 	}
 	judgeReinvocations(r, vars)
+	judgeDynamicCalls(r)
 	// short-circuit forms with literal operands next to tracing and failing calls (peephole territory)
 	for _, l := range []string{`tr(1) > 0`, `trb(b)`, `m["zz"] > 0`, `boom(1) > 0`, `[trb(f)][0]`} {
 		for _, tpl := range []string{"%s && false", "%s && true", "%s || true", "%s || false", "false && %s", "true || %s", "if(%s, true, true)", "if(%s, false, false)", "if(%s, 1, 1)",
 			"[tr(1), if(%s, false, false), tr(3)]", "!(%s)", "!(%s) && false", "(%s) == true", "if(true, %s, false)", "not(%s) or true",
 			"if(!!(%s), tr(1), tr(2))", "!!(%s) && tr(5) > 0", "!!(%s) || tr(5) > 0", "!!!(%s) ? tr(1) : tr(2)", "if(!(!(%s)), tr(1), tr(2))", "if(!(%s), tr(1), tr(2))", "!!!!(%s) && trb(b)",
 			"if(!!(%s), 1, boom(2))", "!(%s) || !!(%s)", "!(!(%s) && !(%s))",
+			"%s && f", "%s || b", "%s && b", "%s || f", "[tr(7), %s && f, tr(8)]", "if(%s || b, tr(1), tr(2))", "(%s && f) || (%s || b)", "%s && o.p > 100", "%s || xs[0] > 0",
 			"!(%s || !(%s))", "!(%s && !(%s))", "!if(%s, b, !b)", "!if(%s, !b, !f)", "if(!(%s || !b), tr(1), tr(2))", "[!(%s || !b), b] == [f, b]", "!(!(%s) || !(%s)) && !(b && !f)"} {
 			n := strings.Count(tpl, "%s")
 			args := make([]interface{}, n)
@@ -166,6 +168,82 @@ func runC03(r *Run) {
 		}
 		if i < 3 {
 			r.Sample(src)
+		}
+	}
+}
+
+// judgeDynamicCalls: function VALUES bound in the environment, called through list / map / conditional selection; one
+// compiled expression per back end is invoked on a sequence of environments that select different callees. Direct
+// predicate only (function-typed variables are outside the model's environments): every invocation equals a fresh
+// compilation on that environment, and all back ends agree.
+func judgeDynamicCalls(r *Run) {
+	ft := types.Fun("f", []*types.Type{types.Num}, types.Num)
+	mkEnvs := func(tl *traceLog, b bool, x float64, k string) (*types.Env, *val.Env) {
+		te, ve := types.NewEnv(), val.NewEnv()
+		te.Put("fi", ft)
+		te.Put("fd", ft)
+		te.Put("b", types.Bool)
+		te.Put("x", types.Num)
+		te.Put("k", types.Str)
+		ve.Put("fi", val.Fun(ft, func(a ...*val.Val) *val.Val { tl.add("fi", a...); return val.Num(a[0].Num().V + 1) }))
+		ve.Put("fd", val.Fun(ft, func(a ...*val.Val) *val.Val { tl.add("fd", a...); return val.Num(a[0].Num().V - 1) }))
+		ve.Put("b", val.Bool(b))
+		ve.Put("x", val.Num(x))
+		ve.Put("k", val.Str(k))
+		return te, ve
+	}
+	type inp struct {
+		b bool
+		x float64
+		k string
+	}
+	seq := []inp{{true, 10, "a"}, {false, 10, "b"}, {true, 3, "a"}, {false, 3, "b"}}
+	obs := func(tl *traceLog, cl yae.Callable, ve *val.Env) string {
+		tl.ev = nil
+		var v *val.Val
+		var err error
+		pan, msg := protect(func() { v, err = cl(ve) })
+		switch {
+		case pan:
+			return "panic " + classify(msg)
+		case err != nil:
+			return "error " + classify(err.Error())
+		}
+		return string(L(ValSx(v), LS(tl.ev)))
+	}
+	for _, src := range []string{`[fi, fd][if(b, 0, 1)](x)`, `if(b, fi, fd)(x) + 1`, `["a": fi, "b": fd][k](x)`, `[fi, fd][if(b, 0, 1)](x) + [fi, fd][if(b, 1, 0)](x) * 100`, `fi(fd(x))`, `[fd][0](fi(x))`} {
+		var first []string
+		for bi, be := range backends {
+			tl := &traceLog{}
+			te, _ := mkEnvs(tl, true, 0, "a")
+			var cl yae.Callable
+			var cerr error
+			if pan, _ := protect(func() { cl, cerr = newExpr(be, tl, false).Compile(src, te) }); pan || cerr != nil {
+				r.Count("dynamic-call:not-compiled")
+				continue
+			}
+			var got []string
+			for k, in := range seq {
+				_, ve := mkEnvs(tl, in.b, in.x, in.k)
+				mark(fmt.Sprintf("dynamic call %q on %s, invocation #%d", src, be, k+1))
+				g := obs(tl, cl, ve)
+				got = append(got, g)
+				tl2 := &traceLog{}
+				te2, ve2 := mkEnvs(tl2, in.b, in.x, in.k)
+				var cl2 yae.Callable
+				protect(func() { cl2, _ = newExpr(be, tl2, false).Compile(src, te2) })
+				if cl2 != nil {
+					if w := obs(tl2, cl2, ve2); w != g {
+						r.Violate("reinvocation-differs-from-fresh-compilation", fmt.Sprintf("%q on %s, invocation #%d of one Callable (function values in the environment)", src, be, k+1), fmt.Sprintf("got %s, a fresh compilation gives %s", g, w))
+					}
+				}
+				r.Count("dynamic-call invocations")
+			}
+			if bi == 0 {
+				first = got
+			} else if first != nil && strings.Join(first, "|") != strings.Join(got, "|") {
+				r.Violate("backends-differ", fmt.Sprintf("%q (function values in the environment)", src), fmt.Sprintf("%s: %v vs %s: %v", backends[0], first, be, got))
+			}
 		}
 	}
 }
